@@ -61,13 +61,149 @@ def rhu(q):
     return math.floor(q + Fraction(1, 2))
 
 
+def wide_sets(rng, quick=True):
+    """data with wide ranges max-min in {31, 32, 33, 100, 1000, 2^12}, negative values, unique and multiple modes"""
+    out = [[0, 40, 40, 40, 7, 100, 3], [-50, -10, -10, 33, -50, -10], [5, 37, 37, 5, 37], [64, 0, 64, 1, 64, 0, 0, 64, 64]]
+    for R in (31, 32, 33, 100, 1000, 4096):
+        for rep in range(1 if (quick and R >= 1000) else 2):
+            base = rng.randrange(-2000, 100)
+            hi = base + R
+            mid = base + rng.randrange(32, R) if R > 32 else base + rng.randrange(1, R)
+            d = [base, hi, hi, mid, hi, base + 3] if rep == 0 else [hi, base, mid, mid, base + 1, mid, hi]
+            rng.shuffle(d)
+            out.append(d)
+    return out
+
+
+def mode_sig(data, got, ex, tag=''):
+    cnt = {a: data.count(a) for a in data}
+    modes = [a for a in cnt if cnt[a] == max(cnt.values())]
+    if got == min(modes) and ex != min(modes):
+        return 'mode-multimodal-first-not-min data=%s%s' % (data, tag)
+    return 'mode-wrong data=%s%s' % (data, tag)
+
+
+class Watchdog(BaseException):
+    pass
+
+
+def multi_party(ctx):
+    """mode / median* / quantiles / mean on secint and secfxp at m = 3 (PRSS on and off), data shared by mpc.input,
+    incl. wide ranges, negative values, multimodal data; oracle = Python statistics; all parties agree."""
+    import signal, time
+    from lib.sim import Sim, Fifo
+    rng = ctx.rng
+
+    def on_alarm(signum, frame):
+        raise Watchdog()
+    old = signal.signal(signal.SIGALRM, on_alarm)
+    sets = [[3, 3, 1, 1], [-5, 2, 2, -5, 0], [7], [0, 40, 40, 40, 7, 100, 3]]
+    if ctx.tier == 'thorough':
+        sets += [[4, -4], [-50, -10, -10, 33, -50, -10]]
+    for R in (32, 33) if ctx.tier != 'thorough' else (31, 32, 33, 100):
+        base = rng.randrange(-300, 50)
+        sets.append([base, base + R, base + R, base + rng.randrange(1, R), base + R])
+    FX = 16
+
+    def make_prog(stname):
+        async def prog(mpc, mods, pid):
+            ms = mods['mpyc.statistics']
+            st = mpc.SecInt(32) if stname == 'secint' else mpc.SecFxp(48, FX)
+            out = []
+            for d in sets:
+                x = mpc.input([st(a) for a in d], senders=0)
+                rec = {}
+                try:
+                    rec['mode'] = await mpc.output(ms.mode(x))
+                    rec['median'] = await mpc.output(ms.median(x))
+                    rec['median_low'] = await mpc.output(ms.median_low(x))
+                    rec['median_high'] = await mpc.output(ms.median_high(x))
+                    rec['mean'] = await mpc.output(ms.mean(x))
+                    if len(d) >= 2:
+                        rec['q_inc'] = await mpc.output(ms.quantiles(x, n=4, method='inclusive'))
+                        rec['q_exc'] = await mpc.output(ms.quantiles(x, n=5, method='exclusive'))
+                except Exception as e:  # noqa
+                    rec['EXC'] = repr(e)[:200]
+                out.append({k: ([float(a) for a in v] if isinstance(v, list) else (v if isinstance(v, str) else float(v)))
+                            for k, v in rec.items()})
+            return out
+        return prog
+
+    class TimeLimited:
+        def __init__(self, inner, seconds):
+            self.inner, self.deadline = inner, time.time() + seconds
+
+        def deliver(self, net):
+            return 0 if time.time() > self.deadline else self.inner.deliver(net)
+    ulp = Fraction(1, 2 ** FX)
+    try:
+        for stname, no_prss in (('secint', False), ('secfxp', True)) + ((('secint', True), ('secfxp', False)) if ctx.tier == 'thorough' else ()):
+            cfg = 'm=3 t=1 %s %s' % ('no-prss' if no_prss else 'prss', stname)
+            sim = Sim(3, 1, no_prss=no_prss, seed=ctx.seed * 31 + 5, log_messages=False, track_tasks=False)
+            res = None
+            signal.setitimer(signal.ITIMER_REAL, 90)
+            try:
+                sim.start()
+                res = sim.run(make_prog(stname), TimeLimited(Fifo(), 60), idle_limit=400) if sim.started else None
+                if res and all(isinstance(r, list) for r in res):
+                    sim.shutdown()
+            except Watchdog:
+                res = None
+            finally:
+                signal.setitimer(signal.ITIMER_REAL, 0)
+                try:
+                    sim.close()
+                except Watchdog:
+                    pass
+            if res is None or not all(isinstance(r, list) for r in res):
+                ctx.violation('sim-parties-hang ' + cfg, {'config': cfg, 'results': str(res)[:300]})
+                continue
+            if any(r != res[0] for r in res[1:]):
+                ctx.violation('sim-parties-disagree ' + cfg, {'config': cfg, 'per_party': [str(r)[:200] for r in res]})
+                continue
+            for d, rec in zip(sets, res[0]):
+                fr = [Fraction(a) for a in d]
+                key = {'sim': cfg, 'data': d}
+                if 'EXC' in rec:
+                    ctx.violation('statistics-exception ' + cfg, dict(key, exception=rec['EXC']))
+                    continue
+                exact = stname == 'secint'
+                exp = {'mode': Fraction(statistics.mode(d)), 'median_low': statistics.median_low(fr), 'median_high': statistics.median_high(fr),
+                       'median': Fraction(math.floor(statistics.median(fr))) if exact else statistics.median(fr),
+                       'mean': Fraction(rhu(statistics.mean(fr))) if exact else statistics.mean(fr)}
+                tol = {'mode': 0, 'median_low': 0, 'median_high': 0, 'median': 0 if exact else 2 * ulp,
+                       'mean': Fraction(1, 2) if exact else ulp * (3 + sum(abs(a) for a in fr))}
+                if exact:
+                    exp['mean'] = statistics.mean(fr)
+                for fn in exp:
+                    ctx.case(dict(key, fn=fn), kind='sim/' + fn)
+                    if abs(Fraction(rec[fn]) - exp[fn]) > tol[fn]:
+                        sig = mode_sig(d, rec[fn], statistics.mode(d), ' ' + cfg) if fn == 'mode' else '%s-%s-wrong %s' % (fn, stname, cfg)
+                        ctx.violation(sig, dict(key, fn=fn, got=rec[fn], expected=float(exp[fn])))
+                if len(d) >= 2:
+                    R = max(fr) - min(fr)
+                    for fn, nq, method in (('q_inc', 4, 'inclusive'), ('q_exc', 5, 'exclusive')):
+                        ex = statistics.quantiles(fr, n=nq, method=method)
+                        ctx.case(dict(key, fn=fn), kind='sim/quantiles')
+                        tq = 0 if exact else ulp * (3 + 2 * nq * R)
+                        want = [Fraction(rhu(e)) for e in ex] if exact else ex
+                        if len(rec[fn]) != nq - 1 or any(abs(Fraction(g) - e) > tq for g, e in zip(rec[fn], want)):
+                            ctx.violation('quantiles-%s-%s %s' % (method, stname, cfg), dict(key, fn=fn, got=rec[fn], expected=[float(e) for e in ex]))
+    finally:
+        signal.setitimer(signal.ITIMER_REAL, 0)
+        signal.signal(signal.SIGALRM, old)
+
+
+
 def run(ctx):
     import sys
+    ok = ctx.build(['MPyC.Stats']) and ctx.check_props()
+    multi_party(ctx)           # first: the simulator loads and unloads its own copies of the package
+    ctx.log('simulator part done')
     sys.argv = [sys.argv[0], '--no-log']
     from mpyc.runtime import mpc
     import mpyc.random as mr
     import mpyc.statistics as ms
-    ok = ctx.build(['MPyC.Stats']) and ctx.check_props()
     mpc.run(mpc.start())
     assert mpc.options.no_async and mr.runtime is mpc and ms.runtime is mpc
     rng = ctx.rng
@@ -252,7 +388,7 @@ def run(ctx):
     vals8 = [-3, -1, 0, 1, 2, 4, 5, 7]
     datasets = []
     for size in (1, 2, 3):
-        for d in itertools.product(vals8, repeat=size):
+        for d in itertools.product(vals8 if size < 3 else vals8[:ctx.n(6, 8)], repeat=size):
             datasets.append(list(d))
     for d in itertools.product(vals8[1:1 + ctx.n(5, 6)], repeat=4):
         datasets.append(list(d))
@@ -315,6 +451,51 @@ def run(ctx):
                 viol('mode-multimodal-first-not-min data=%s secfxp' % d, {'st': 'secfxp', 'fn': 'mode', 'data': d}, got, ex)
             else:
                 viol('mode-wrong data=%s secfxp' % d, {'st': 'secfxp', 'fn': 'mode', 'data': d}, got, ex)
+    # ---- wide ranges (max-min in {31,32,33,100,1000,2^12}), negative values, multimodal: mode / medians / quantiles ------
+    secint32 = mpc.SecInt(32)
+    secfxpw = mpc.SecFxp(48, FX)
+    for d in wide_sets(rng, quick=ctx.tier != 'thorough'):
+        fr = [Fraction(a) for a in d]
+        R = max(d) - min(d)
+        for stname, st, LBW in (('secint', secint32, 32), ('secfxp', secfxpw, 32)):
+            key0 = {'st': stname + '-wide', 'data': d, 'range': R}
+            xs = lambda: [st(a) for a in d]   # noqa: E731
+            got = mpc.run(mpc.output(ms.mode(xs())))
+            ex = statistics.mode(d)
+            ctx.case(dict(key0, fn='mode'), kind='mode/%s-wide' % stname)
+            if got != ex:
+                viol(mode_sig(d, got, ex, '' if stname == 'secint' else ' secfxp'), dict(key0, fn='mode'), got, ex)
+            if R < 4096:      # the 2^13-bin histogram takes seconds under vm_compute; oracle only there
+                model('mode %d%%nat %d%%nat %s' % (LBW, PRIV, zlist(d)), int(got), key0, 'mode-wide')
+            for kind, fn in ((0, 'median'), (1, 'median_low'), (2, 'median_high')):
+                ex = getattr(statistics, fn)(fr)
+                if stname == 'secint':
+                    got, used = with_tape(lambda: getattr(ms, fn)(xs()))
+                    model('med %s %s %d%%nat %s' % (FUEL, zlist(d), kind, tape_lit(used)), ('Some', (got, [])), key0, fn + '-wide')
+                    bad = got != (math.floor(ex) if fn == 'median' else ex)
+                else:
+                    got = mpc.run(mpc.output(getattr(ms, fn)(xs())))
+                    bad = abs(Fraction(got) - ex) > (2 * ulp if fn == 'median' else 0)
+                ctx.case(dict(key0, fn=fn), kind='%s/%s-wide' % (fn, stname))
+                if bad:
+                    viol('%s-%s-wide' % (fn, stname), dict(key0, fn=fn), got, ex)
+            for method in ('inclusive', 'exclusive'):
+                for nq in (4, rng.randrange(2, 13)):
+                    ex = statistics.quantiles(fr, n=nq, method=method)
+                    if stname == 'secint':
+                        x_ = xs()
+                        got, used = with_tape(lambda: ms.quantiles(x_, n=nq, method=method))
+                        model('quantiles %s %s %s %s %s' % (FUEL, 'true' if method == 'inclusive' else 'false', zlist(d), zlit(nq), tape_lit(used)),
+                              ('Some', (got, [])), dict(key0, n=nq, method=method), 'quantiles-wide')
+                        bad = len(got) != nq - 1 or any(g != rhu(e) for g, e in zip(got, ex))
+                    else:
+                        got = mpc.run(mpc.output(ms.quantiles(xs(), n=nq, method=method)))
+                        tolq = ulp * (3 + 2 * nq * R)
+                        bad = len(got) != nq - 1 or any(abs(Fraction(g) - e) > tolq for g, e in zip(got, ex))
+                    ctx.case(dict(key0, fn='quantiles', n=nq, method=method), kind='quantiles-%s/%s-wide' % (method, stname))
+                    if bad:
+                        viol('quantiles-%s-%s-wide n=%d' % (method, stname, nq), dict(key0, fn='quantiles', n=nq, method=method), got, [str(e) for e in ex])
+    ctx.log('wide-range data sets done')
     worst = {'correlation': 0.0, 'slope': 0.0, 'intercept': 0.0, 'covariance': 0.0}
     for _ in range(ctx.n(30, 200)):
         n = rng.randrange(3, 8)
